@@ -4,26 +4,62 @@ Tape minimisation (delta debugging over the recorded draws).
 Because workload, schedule and faults all come from the one tape, one shrinker
 reduces operations, sizes, interleavings and faults together.  A candidate is
 kept only if it still produces the *same violation class* (oracle name).
+Every attempt runs in a fresh forked process (farm.isolated), exactly like a
+replay, so the result never depends on what earlier attempts left behind.
 """
 import time
 
+from .farm import JobFailed, isolated
 from .sched import Violation
 from .tape import Tape
 
 
-def attempt(run, values):
-    """Execute *run* on a replay tape.  Returns (oracle or None, tape, violation)."""
+def _attempt_job(arg):
+    run, prelude, values = arg
+    for p in prelude:
+        try:
+            run(Tape(replay=p))
+        except Exception:  # noqa: B902 - only the state it leaves behind matters
+            pass
     tape = Tape(replay=values)
+    out = {"oracle": None, "detail": None, "key": None, "trace": None}
     try:
         run(tape)
     except Violation as v:
-        return v.oracle, tape, v
+        out = {"oracle": v.oracle, "detail": str(v.detail), "key": v.key, "trace": getattr(v, "trace", None)}
     except Exception:  # noqa: B902 - a candidate tape that breaks the harness is simply not kept
-        return None, tape, None
-    return None, tape, None
+        pass
+    out["values"] = list(tape.values)
+    out["decoded"] = tape.decoded()
+    return out
 
 
-def shrink(run, values, oracle, max_runs=300, max_seconds=90.0):
+def attempt(run, values, prelude=()):
+    try:
+        return isolated(_attempt_job, (run, list(prelude), list(values)), timeout=300)
+    except JobFailed:
+        return {"oracle": None, "detail": None, "key": None, "trace": None, "values": list(values), "decoded": []}
+
+
+def shrink_prelude(run, prelude, values, oracle, max_runs=60):
+    """Find a small list of earlier tapes after which *values* fails with *oracle*."""
+    prelude = list(prelude)
+    if attempt(run, values, prelude)["oracle"] != oracle:
+        return prelude, False
+    runs = 0
+    i = 0
+    # drop from the front first (old runs matter least), one at a time
+    while i < len(prelude) and runs < max_runs:
+        cand = prelude[:i] + prelude[i + 1:]
+        runs += 1
+        if attempt(run, values, cand)["oracle"] == oracle:
+            prelude = cand
+        else:
+            i += 1
+    return prelude, True
+
+
+def shrink(run, values, oracle, max_runs=300, max_seconds=120.0, prelude=()):
     t0 = time.monotonic()
     best = list(values)
     runs = 0
@@ -31,10 +67,10 @@ def shrink(run, values, oracle, max_runs=300, max_seconds=90.0):
     def still_fails(cand):
         nonlocal runs
         runs += 1
-        got, tape, _ = attempt(run, cand)
-        if got == oracle:
+        got = attempt(run, cand, prelude)
+        if got["oracle"] == oracle:
             # normalise: what the run actually consumed (drops unread tail, clamps)
-            return list(tape.values)
+            return got["values"]
         return None
 
     def budget():
@@ -42,7 +78,7 @@ def shrink(run, values, oracle, max_runs=300, max_seconds=90.0):
 
     first = still_fails(best)
     if first is None:
-        return best, runs, False  # not reproducible (should not happen: replay is exact)
+        return best, runs, False
     best = first
     improved = True
     while improved and budget():
